@@ -213,6 +213,43 @@ class Frame:
 
 class Diverge(Exception): pass
 
+def fcopy(x, memo=None):
+    """structure-preserving copy of interpreter values: containers are copied (aliasing kept through
+    memo), terms (immutable tuples) are shared"""
+    if memo is None: memo = {}
+    if isinstance(x, tuple):
+        if x and x[0] in ('elem', 'fill', 'rep') and _has_value(x):
+            return tuple(fcopy(y, memo) if not isinstance(y, str) else y for y in x)
+        return x
+    if x is None or isinstance(x, (int, str, bool, float)): return x
+    i = id(x)
+    if i in memo: return memo[i]
+    if isinstance(x, list):
+        r = []; memo[i] = r
+        r.extend(fcopy(y, memo) for y in x); return r
+    if isinstance(x, dict):
+        r = {}; memo[i] = r
+        for k, v in x.items(): r[k] = fcopy(v, memo)
+        return r
+    if isinstance(x, set):
+        return set(x)
+    if isinstance(x, (Unit,)): return x
+    cls = x.__class__
+    r = cls.__new__(cls); memo[i] = r
+    for k, v in x.__dict__.items():
+        if k in ('interp',): r.__dict__[k] = v
+        else: r.__dict__[k] = fcopy(v, memo)
+    return r
+
+def _has_value(seg):
+    for y in seg[1:]:
+        if isinstance(y, tuple):
+            if y and isinstance(y[0], tuple):
+                if any(_has_value(z) for z in y if isinstance(z, tuple) and z and isinstance(z[0], str) and z[0] in ('elem', 'fill', 'rep')): return True
+            elif y and y[0] in ('elem', 'fill', 'rep') and _has_value(y): return True
+        elif not isinstance(y, (str, int, type(None))): return True
+    return False
+
 def is_term(v): return isinstance(v, tuple)
 
 class Interp:
@@ -435,8 +472,8 @@ class Interp:
             if sg[0] == 'fill': return sg[2]
             if sg[0] == 'rep' and sg[2] is None and len(sg[3]) == 1 and sg[3][0][0] == 'int' and sg[3][0][2] == 1: return sg[3][0][1]
             if sg[0] in ('sym', 'raw'):
-                if s.is_bytes() or int_bits(s.elem):
-                    b = 8 if s.is_bytes() else int_bits(s.elem)
+                if s.is_bytes() or int_bits(s.elem) or s.elem == 'char':
+                    b = 8 if s.is_bytes() else (int_bits(s.elem) or 21)
                     sym.SEL_RANGE[sg[1]] = (0, (1 << b) - 1)
                     return ('sel', sg[1], idx)
                 return self.sym_value(s.elem, '%s[%s]' % (show(sg[1]), show(idx)))
@@ -454,7 +491,7 @@ class Interp:
     # -------------------------------------------------------------- fork / merge
     def fork(self):
         memo = {}
-        st2 = copy.deepcopy(self.st, memo)
+        st2 = fcopy(self.st, memo)
         inv = {}
         for k, v in memo.items():
             if isinstance(v, (StructV, SeqV, EnumV, Cell, TupleV, OuterSink, Frame, FieldPlace)):
@@ -565,7 +602,7 @@ class Interp:
         results = []
         neg = []   # negations of earlier conditions
         for c, th in live:
-            S = copy.deepcopy(A)
+            S = fcopy(A)
             self.st = S
             for nc in neg:
                 S.facts.append((bnot(nc), None)); sym.refine(bnot(nc), S.ranges)
@@ -822,7 +859,7 @@ class Interp:
         if elem == 'u8' and is_term(v):
             if n <= 64: return SeqV('u8', [('int', v, 1)] * n)
             return SeqV('u8', [('rep', C(n), None, (('int', v, 1),))])
-        return SeqV(elem, [('elem', copy.deepcopy(v)) for _ in range(n)])
+        return SeqV(elem, [('elem', fcopy(v)) for _ in range(n)])
 
     def e_Adt(self, e):
         fields = {}
@@ -1078,7 +1115,7 @@ class Interp:
                 self.summarise(lambda: fn(wrap_ref(el)), ('len', s[1]), nm, el, None, e)
                 self.active_loops.discard(nm)
             elif s[0] == 'fill':
-                self.summarise(lambda: fn(wrap_ref(copy.deepcopy(s[2]))), s[1], None, s[2], None, e)
+                self.summarise(lambda: fn(wrap_ref(fcopy(s[2]))), s[1], None, s[2], None, e)
             else:
                 self.top('iteration over segment %r' % (s,), e)
 
